@@ -287,32 +287,26 @@ theorem gen_set_find (h : Nat → Nat) (t : PTable) (k : Nat) :
   · simp only [ha, if_true]; exact gen_set_find_loop h t k _ _ _
   · simp [ha, iterOf, findResult]
 
-theorem gen_set_removeIt_k2 (h : Nat → Nat) (t : PTable) (it : Nxt) (item : Nat) :
-    HashLink.HashSet.removeIt_k2 h t it item =
-      some ({ ({ t with size := t.size - 1 } : PTable).setPrev item t.freeItem with freeItem := some item },
-            ((({ t with size := t.size - 1 } : PTable).setPrev item t.freeItem).items item).next) := rfl
-
-theorem gen_set_removeIt_k1 (h : Nat → Nat) (t : PTable) (it : Nxt) (item : Nat) :
-    HashLink.HashSet.removeIt_k1 h t it item =
-      some ({ (t.unlinkOrder item).setPrev item (t.unlinkOrder item).freeItem with freeItem := some item },
-            (((t.unlinkOrder item).setPrev item (t.unlinkOrder item).freeItem).items item).next) := by
-  unfold HashLink.HashSet.removeIt_k1 PTable.unlinkOrder
-  simp only [gen_set_removeIt_k2]
-  cases h2 : (t.items item).prev <;> rfl
-
 /-- The translated `HashSet::remove(const Iterator&)` is the model's `removeItem` (unlink from the bucket chain through the
-    `cell` back-pointer, unlink from the order list, push on the free list, return `item->next` read AFTER the release) on
-    every table in which the item's `cell` does not designate the item's own `nextCell`. -/
-theorem gen_set_removeIt (h : Nat → Nat) (t : PTable) (item : Nat) (hc : (t.items item).cell ≠ .nextOf item) :
+    `cell` back-pointer, unlink from the order list, push on the free list, return `item->next`) on every table in which the
+    item's `cell` does not designate the item's own `nextCell` and the item is not its own predecessor.  The proof does not
+    follow the statement order of the body (the functions `…_kN` are unfolded by `simp`, every read is evaluated through the
+    stores before it by frame lemmas): it also holds of a body that hoists the reads into locals (harmless change C02-h1). -/
+theorem gen_set_removeIt (h : Nat → Nat) (t : PTable) (item : Nat) (hc : (t.items item).cell ≠ .nextOf item)
+    (hp : (t.items item).prev ≠ some item) :
     HashLink.HashSet.removeIt h t (.item item) = some (t.removeItem item) := by
-  unfold HashLink.HashSet.removeIt PTable.removeItem PTable.unlinkChain
-  simp only [gen_set_removeIt_k1]
-  cases h1 : (t.items item).nextCell <;> simp only [writeCell_items_ne t _ _ item hc, h1]
+  unfold HashLink.HashSet.removeIt PTable.removeItem PTable.unlinkChain PTable.unlinkOrder
+  rcases hnc : (t.items item).nextCell with _ | n <;> rcases hpv : (t.items item).prev with _ | p <;>
+    simp [writeCell_items_ne t _ _ item hc, hnc, hpv, setCell_prev, setCell_next, writeCell_prev, writeCell_next,
+      setPrev_next, setPrevOf_next]
+  all_goals
+    have hpi : item ≠ p := fun e => hp (by rw [hpv, e])
+    simp [setNext_next_ne _ _ _ _ hpi, setCell_next, writeCell_next]
 
 /-- … hence on every table that represents a model state, for every live item. -/
 theorem gen_set_removeIt_rel {h : Nat → Nat} {pt : PTable} {t : Table} (hr : Rel pt t) (hi : t.Inv h) (id : Nat)
     (hm : id ∈ t.order) : HashLink.HashSet.removeIt h pt (.item id) = some (pt.removeItem id) :=
-  gen_set_removeIt h pt id (hr.cell_ne_self hi id hm)
+  gen_set_removeIt h pt id (hr.cell_ne_self hi id hm) (hr.prev_ne_self hi id hm)
 
 /-- The translated `HashSet::remove(const T& key)` (`find`, then `remove(it)` unless `end()`) is the model's `removeKey` on
     every table that represents a model state. -/
@@ -354,31 +348,78 @@ theorem gen_set_removeBack {h : Nat → Nat} {pt : PTable} {t : Table} (hr : Rel
       exact List.mem_of_getLast? this.symm
     simp [gen_set_removeIt_rel hr hi x hm]
 
-theorem gen_set_insert_k3 (h : Nat → Nat) (t : PTable) (pos : Nxt) (k : Nat) (it : Nxt) (item hc : Nat) (c : CellRef) (ip : Nxt) :
-    HashLink.HashSet.insert_k3 h t pos k it item hc c ip =
-      some ({ (t.setNext item ip).setPrevOf ip (some item) with size := ((t.setNext item ip).setPrevOf ip (some item)).size + 1 }, .item item) := rfl
-
-theorem gen_set_insert_k2 (h : Nat → Nat) (t : PTable) (pos : Nxt) (k : Nat) (it : Nxt) (item hc : Nat) (c : CellRef)
-    (hp : pos ≠ .item item) :
-    HashLink.HashSet.insert_k2 h t pos k it item hc c = some ((t.writeCell c (some item)).linkOrder item pos, .item item) := by
-  unfold HashLink.HashSet.insert_k2 PTable.linkOrder
-  simp only [gen_set_insert_k3, prevOf_setPrev _ _ _ _ hp]
-  cases hq : (t.writeCell c (some item)).prevOf pos <;> rfl
-
-theorem gen_set_insert_k1 (h : Nat → Nat) (t : PTable) (pos : Nxt) (k v : Nat) (it : Nxt) (item : Nat)
-    (hp : pos ≠ .item item) :
+/-- The second half of the translated `HashSet::insert` (construction, push to the front of the bucket chain, link before
+    `position`) is the model's `linkChain` followed by `linkOrder` on every table in which the fresh item is neither the item
+    `position` designates, nor its predecessor, nor the head of the bucket.  Proved by evaluating every read through the
+    stores before it and comparing the two heaps pointwise, so the order of independent stores in the body does not matter
+    (harmless change C02-h1: order list first, chain second). -/
+theorem gen_set_insert_link (h : Nat → Nat) (t : PTable) (pos : Nxt) (k v : Nat) (it : Nxt) (item : Nat)
+    (H1 : pos ≠ .item item) (H2 : t.prevOf pos ≠ some item) (H3 : t.heads (h k % t.cap) ≠ some item) :
     HashLink.HashSet.insert_k1 h t pos k it item =
       some ((t.linkChain Kind.set item (h k % t.cap) k v).linkOrder item pos, .item item) := by
-  unfold HashLink.HashSet.insert_k1 PTable.linkChain
-  simp only [gen_set_insert_k2 _ _ _ _ _ _ _ _ hp]
-  simp only [PTable.constructAt, PTable.setCell, PTable.setNextCell, PTable.readCell, PTable.writeCell, upd_same, upd_upd, Table.storedValue, reduceCtorEq, if_false]
-  cases hh : t.heads (h k % t.cap) <;> rfl
+  unfold HashLink.HashSet.insert_k1 PTable.linkChain PTable.linkOrder
+  rcases hh : t.heads (h k % t.cap) with _ | n <;> rcases pos with j | o
+  case none.item =>
+    have hj : j ≠ item := fun e => H1 (by rw [e])
+    rcases hq : (t.items j).prev with _ | q
+    · simp [PTable.constructAt, PTable.setCell, PTable.setNextCell, PTable.readCell, PTable.writeCell, PTable.setPrev, PTable.setNext,
+          PTable.prevOf, PTable.setPrevOf, upd_same, upd_upd, Table.storedValue, hh, hq, upd_ne _ _ _ _ hj]
+      try (funext x; by_cases e_xj : x = j <;> by_cases e_xi : x = item <;> simp_all [upd])
+    · have hqi : q ≠ item := fun e => H2 (by simp [PTable.prevOf, hq, e])
+      simp [PTable.constructAt, PTable.setCell, PTable.setNextCell, PTable.readCell, PTable.writeCell, PTable.setPrev, PTable.setNext,
+          PTable.prevOf, PTable.setPrevOf, upd_same, upd_upd, Table.storedValue, hh, hq, upd_ne _ _ _ _ hj, upd_ne _ _ _ _ hqi]
+      try (funext x; by_cases e_jq : j = q <;> by_cases e_xj : x = j <;> by_cases e_xq : x = q <;> by_cases e_xi : x = item <;> simp_all [upd])
+  case none.stl =>
+    rcases hq : t.endPrev with _ | q
+    · simp [PTable.constructAt, PTable.setCell, PTable.setNextCell, PTable.readCell, PTable.writeCell, PTable.setPrev, PTable.setNext,
+          PTable.prevOf, PTable.setPrevOf, upd_same, upd_upd, Table.storedValue, hh, hq, upd_same]
+      try (funext x; by_cases e_xi : x = item <;> simp_all [upd])
+    · have hqi : q ≠ item := fun e => H2 (by simp [PTable.prevOf, hq, e])
+      simp [PTable.constructAt, PTable.setCell, PTable.setNextCell, PTable.readCell, PTable.writeCell, PTable.setPrev, PTable.setNext,
+          PTable.prevOf, PTable.setPrevOf, upd_same, upd_upd, Table.storedValue, hh, hq, upd_ne _ _ _ _ hqi]
+      try (funext x; by_cases e_xq : x = q <;> by_cases e_xi : x = item <;> simp_all [upd])
+  case some.item =>
+    have hni : n ≠ item := fun e => H3 (by rw [hh, e])
+    have hj : j ≠ item := fun e => H1 (by rw [e])
+    by_cases hjn : j = n
+    · subst hjn
+      rcases hq : (t.items j).prev with _ | q
+      · simp [PTable.constructAt, PTable.setCell, PTable.setNextCell, PTable.readCell, PTable.writeCell, PTable.setPrev, PTable.setNext,
+            PTable.prevOf, PTable.setPrevOf, upd_same, upd_upd, Table.storedValue, hh, hq, upd_ne _ _ _ _ hj, upd_ne _ _ _ _ hni]
+        try (funext x; by_cases e_xj : x = j <;> by_cases e_xi : x = item <;> simp_all [upd])
+      · have hqi : q ≠ item := fun e => H2 (by simp [PTable.prevOf, hq, e])
+        simp [PTable.constructAt, PTable.setCell, PTable.setNextCell, PTable.readCell, PTable.writeCell, PTable.setPrev, PTable.setNext,
+            PTable.prevOf, PTable.setPrevOf, upd_same, upd_upd, Table.storedValue, hh, hq, upd_ne _ _ _ _ hj, upd_ne _ _ _ _ hqi, upd_ne _ _ _ _ hni]
+        try (funext x; by_cases e_jq : j = q <;> by_cases e_xj : x = j <;> by_cases e_xq : x = q <;> by_cases e_xi : x = item <;> simp_all [upd])
+    · have hjn' : j ≠ n := hjn
+      rcases hq : (t.items j).prev with _ | q
+      · simp [PTable.constructAt, PTable.setCell, PTable.setNextCell, PTable.readCell, PTable.writeCell, PTable.setPrev, PTable.setNext,
+            PTable.prevOf, PTable.setPrevOf, upd_same, upd_upd, Table.storedValue, hh, hq, upd_ne _ _ _ _ hj, upd_ne _ _ _ _ hjn', upd_ne _ _ _ _ hni]
+        try (funext x; by_cases e_jn : j = n <;> by_cases e_xj : x = j <;> by_cases e_xn : x = n <;> by_cases e_xi : x = item <;> simp_all [upd])
+      · have hqi : q ≠ item := fun e => H2 (by simp [PTable.prevOf, hq, e])
+        simp [PTable.constructAt, PTable.setCell, PTable.setNextCell, PTable.readCell, PTable.writeCell, PTable.setPrev, PTable.setNext,
+            PTable.prevOf, PTable.setPrevOf, upd_same, upd_upd, Table.storedValue, hh, hq, upd_ne _ _ _ _ hj, upd_ne _ _ _ _ hjn', upd_ne _ _ _ _ hqi, upd_ne _ _ _ _ hni]
+        try (funext x; by_cases e_jq : j = q <;> by_cases e_jn : j = n <;> by_cases e_qn : q = n <;> by_cases e_xj : x = j <;> by_cases e_xq : x = q <;> by_cases e_xn : x = n <;> by_cases e_xi : x = item <;> simp_all [upd])
+  case some.stl =>
+    have hni : n ≠ item := fun e => H3 (by rw [hh, e])
+    rcases hq : t.endPrev with _ | q
+    · simp [PTable.constructAt, PTable.setCell, PTable.setNextCell, PTable.readCell, PTable.writeCell, PTable.setPrev, PTable.setNext,
+          PTable.prevOf, PTable.setPrevOf, upd_same, upd_upd, Table.storedValue, hh, hq, upd_ne _ _ _ _ hni]
+      try (funext x; by_cases e_xn : x = n <;> by_cases e_xi : x = item <;> simp_all [upd])
+    · have hqi : q ≠ item := fun e => H2 (by simp [PTable.prevOf, hq, e])
+      simp [PTable.constructAt, PTable.setCell, PTable.setNextCell, PTable.readCell, PTable.writeCell, PTable.setPrev, PTable.setNext,
+          PTable.prevOf, PTable.setPrevOf, upd_same, upd_upd, Table.storedValue, hh, hq, upd_ne _ _ _ _ hqi, upd_ne _ _ _ _ hni]
+      try (funext x; by_cases e_qn : q = n <;> by_cases e_xq : x = q <;> by_cases e_xn : x = n <;> by_cases e_xi : x = item <;> simp_all [upd])
 
-/-- The translated `HashSet::insert(position, key)` is the model's `insert` (for every `v`: a set stores no value) – `find`; an existing key
-    is left alone; otherwise bucket array on first use, item from the free list or a new block, construction, push to
+/-- The translated `HashSet::insert(position, key, value)` is the model's `insert` – `find`; an existing key gets the value
+    and keeps its place; otherwise bucket array on first use, item from the free list or a new block, construction, push to
     the front of the bucket chain, link before `position` – on every table on which the item the allocator hands out is not
-    the one `position` designates. -/
-theorem gen_set_insert (h : Nat → Nat) (t : PTable) (pos : Nxt) (k v : Nat) (hp : pos ≠ .item (t.allocItem Kind.set).1) :
+    the one `position` designates, nor its predecessor, nor the head of the key's bucket. -/
+theorem gen_set_insert (h : Nat → Nat) (t : PTable) (pos : Nxt) (k v : Nat)
+    (H1 : pos ≠ .item (t.withBuckets.allocItem Kind.set).1)
+    (H2 : (t.withBuckets.allocItem Kind.set).2.prevOf pos ≠ some (t.withBuckets.allocItem Kind.set).1)
+    (H3 : (t.withBuckets.allocItem Kind.set).2.heads (h k % (t.withBuckets.allocItem Kind.set).2.cap) ≠
+      some (t.withBuckets.allocItem Kind.set).1) :
     HashLink.HashSet.insert h t pos k = (t.insert Kind.set h pos k v).map (fun r => (r.1, Nxt.item r.2)) := by
   unfold HashLink.HashSet.insert PTable.insert
   rw [gen_set_find]
@@ -386,29 +427,29 @@ theorem gen_set_insert (h : Nat → Nat) (t : PTable) (pos : Nxt) (k v : Nat) (h
   | none => rfl
   | some r =>
     cases r with
-    | some id => simp [findResult, iterOf, PTable.setValueAt]
+    | some id => simp [findResult, iterOf]
     | none =>
       simp only [Option.map_some, findResult, iterOf, if_true]
       unfold PTable.linkNew
       rw [withBuckets_eq]
-      rw [← allocItem_withBuckets_fst] at hp
       have e1 : (if t.allocated then t else t.allocBuckets) = t.withBuckets := rfl
       rw [e1]
-      generalize t.withBuckets = t0 at hp ⊢
-      unfold PTable.allocItem at hp ⊢
+      generalize t.withBuckets = t0 at H1 H2 H3 ⊢
+      unfold PTable.allocItem at H1 H2 H3 ⊢
       cases hfree : t0.freeItem with
       | some f =>
-        simp only [hfree] at hp ⊢
-        rw [gen_set_insert_k1 _ _ _ _ v _ _ hp]
+        simp only [hfree] at H1 H2 H3 ⊢
+        rw [gen_set_insert_link _ _ _ _ v _ _ H1 H2 H3]
       | none =>
-        simp only [hfree, PTable.newBlockFirst, reduceCtorEq, if_false] at hp ⊢
-        rw [gen_set_insert_k1 _ _ _ _ v _ _ hp]
+        simp only [hfree, PTable.newBlockFirst, reduceCtorEq, if_false] at H1 H2 H3 ⊢
+        rw [gen_set_insert_link _ _ _ _ v _ _ H1 H2 H3]
 
 /-- … hence on every table that represents a model state, for every position `p ≤ size` (`size` = `end()`). -/
 theorem gen_set_insert_rel {h : Nat → Nat} {pt : PTable} {t : Table} (hr : Rel pt t) (hi : t.Inv h) (p k v : Nat) :
     HashLink.HashSet.insert h pt (nxtAt pt.self t.order p) k =
       (pt.insert Kind.set h (nxtAt pt.self t.order p) k v).map (fun r => (r.1, Nxt.item r.2)) :=
-  gen_set_insert h pt _ k v (hr.alloc_ne_pos hi Kind.set p)
+  gen_set_insert h pt _ k v (by rw [allocItem_withBuckets_fst]; exact hr.alloc_ne_pos hi Kind.set p)
+    (hr.link_facts hi Kind.set p 0).1 (hr.link_facts hi Kind.set p _).2
 
 theorem gen_set_clear_loop (h : Nat → Nat) (fuel : Nat) : ∀ (t : PTable) (i : Nxt),
     HashLink.HashSet.clear_loop1 h fuel t i (.stl t.self) =
@@ -729,18 +770,18 @@ theorem gen_map_equal (h : Nat → Nat) (t o : PTable) :
     rw [← hs]; exact gen_map_equal_loop h t o _ _ _
   · have hs' : ¬ o.size = t.size := fun e => hs e.symm
     simp [hs, hs']
-theorem gen_set_assign_loop (h : Nat → Nat) (o : PTable) (fuel : Nat) : ∀ (t : PTable) (i : Nxt),
-    HashLink.HashSet.assign_loop1 h fuel t o i (.stl o.self) = PTable.appendLoop Kind.set h o.self o.items fuel i t := by
+theorem gen_set_assign_loop (h : Nat → Nat) (o : PTable) (fuel : Nat) : ∀ (pt : PTable) (t : Table) (i : Nxt), Rel pt t → t.Inv h →
+    HashLink.HashSet.assign_loop1 h fuel pt o i (.stl o.self) = PTable.appendLoop Kind.set h o.self o.items fuel i pt := by
   induction fuel with
   | zero =>
-    intro t i
+    intro pt t i hr hi
     cases i with
     | stl s =>
       unfold HashLink.HashSet.assign_loop1 PTable.appendLoop
       by_cases hs : s = o.self <;> simp [hs]
     | item a => simp [HashLink.HashSet.assign_loop1, PTable.appendLoop]
   | succ f ih =>
-    intro t i
+    intro pt t i hr hi
     cases i with
     | stl s =>
       unfold HashLink.HashSet.assign_loop1 PTable.appendLoop
@@ -748,18 +789,25 @@ theorem gen_set_assign_loop (h : Nat → Nat) (o : PTable) (fuel : Nat) : ∀ (t
     | item a =>
       unfold HashLink.HashSet.assign_loop1 PTable.appendLoop
       simp only [reduceCtorEq, if_false]
-      rw [gen_set_insert h t _ _ (o.items a).value (by simp)]
-      cases t.insert Kind.set h (.stl t.self) (o.items a).key (o.items a).value with
-      | none => rfl
-      | some r => simp only [Option.map_some]; exact ih _ _
+      have e := gen_set_insert_rel hr hi t.order.length (o.items a).key (o.items a).value
+      rw [nxtAt_length] at e
+      rw [e]
+      obtain ⟨r, e1, _, hr', _⟩ := hr.insert hi Kind.set t.order.length (o.items a).key (o.items a).value (Nat.le_refl _)
+      rw [nxtAt_length] at e1
+      rw [e1]
+      simp only [Option.map_some]
+      exact ih r.1 _ _ hr' (hi.insert Kind.set t.order.length (o.items a).key (o.items a).value (Nat.le_refl _)).1
 
-/-- the same for `HashSet::operator=` -/
-theorem gen_set_assign (h : Nat → Nat) (t o : PTable) : HashLink.HashSet.assign h t o = t.assignFrom Kind.set h o := by
+/-- The translated `HashSet::operator=(other)` for ANOTHER object (`this == &other` is false: the guard line is the model's
+    `assignSelf`) – `clear()`, then `append(i->key, i->value)` along `other`'s list up to `other`'s sentinel, the reads from
+    `other`'s items – is the model's `assignFrom`, on every represented table and for EVERY source table. -/
+theorem gen_set_assign {h : Nat → Nat} {pt : PTable} {t : Table} (hr : Rel pt t) (hi : t.Inv h) (o : PTable) :
+    HashLink.HashSet.assign h pt o = pt.assignFrom Kind.set h o := by
   unfold HashLink.HashSet.assign PTable.assignFrom PTable.appendAll
   rw [gen_set_clear]
-  cases t.clear with
-  | none => rfl
-  | some t' => exact gen_set_assign_loop h o _ _ _
+  obtain ⟨pt', e, hr', _⟩ := hr.clear hi
+  rw [e]
+  exact gen_set_assign_loop h o _ pt' _ _ hr' hi.clear.1
 
 theorem gen_set_equal_loop (h : Nat → Nat) (t o : PTable) (fuel : Nat) : ∀ (a b : Nxt),
     HashLink.HashSet.equal_loop1 h fuel t o a b = (PTable.eqLoop Kind.set t.self t.items o.items fuel a b).map (fun r => (t, r)) := by
@@ -797,18 +845,18 @@ theorem gen_set_equal (h : Nat → Nat) (t o : PTable) :
     rw [← hs]; exact gen_set_equal_loop h t o _ _ _
   · have hs' : ¬ o.size = t.size := fun e => hs e.symm
     simp [hs, hs']
-theorem gen_set_appendAll_loop (h : Nat → Nat) (o : PTable) (fuel : Nat) : ∀ (t : PTable) (i : Nxt),
-    HashLink.HashSet.appendAll_loop1 h fuel t o i (.stl o.self) = PTable.appendLoop Kind.set h o.self o.items fuel i t := by
+theorem gen_set_appendAll_loop (h : Nat → Nat) (o : PTable) (fuel : Nat) : ∀ (pt : PTable) (t : Table) (i : Nxt), Rel pt t → t.Inv h →
+    HashLink.HashSet.appendAll_loop1 h fuel pt o i (.stl o.self) = PTable.appendLoop Kind.set h o.self o.items fuel i pt := by
   induction fuel with
   | zero =>
-    intro t i
+    intro pt t i hr hi
     cases i with
     | stl s =>
       unfold HashLink.HashSet.appendAll_loop1 PTable.appendLoop
       by_cases hs : s = o.self <;> simp [hs]
     | item a => simp [HashLink.HashSet.appendAll_loop1, PTable.appendLoop]
   | succ f ih =>
-    intro t i
+    intro pt t i hr hi
     cases i with
     | stl s =>
       unfold HashLink.HashSet.appendAll_loop1 PTable.appendLoop
@@ -816,15 +864,21 @@ theorem gen_set_appendAll_loop (h : Nat → Nat) (o : PTable) (fuel : Nat) : ∀
     | item a =>
       unfold HashLink.HashSet.appendAll_loop1 PTable.appendLoop
       simp only [reduceCtorEq, if_false]
-      rw [gen_set_insert h t _ _ (o.items a).value (by simp)]
-      cases t.insert Kind.set h (.stl t.self) (o.items a).key (o.items a).value with
-      | none => rfl
-      | some r => simp only [Option.map_some]; exact ih _ _
+      have e := gen_set_insert_rel hr hi t.order.length (o.items a).key (o.items a).value
+      rw [nxtAt_length] at e
+      rw [e]
+      obtain ⟨r, e1, _, hr', _⟩ := hr.insert hi Kind.set t.order.length (o.items a).key (o.items a).value (Nat.le_refl _)
+      rw [nxtAt_length] at e1
+      rw [e1]
+      simp only [Option.map_some]
+      exact ih r.1 _ _ hr' (hi.insert Kind.set t.order.length (o.items a).key (o.items a).value (Nat.le_refl _)).1
 
-/-- The translated `HashSet::append(const HashSet& other)` (another object) is the model's `appendAll`, for EVERY two tables. -/
-theorem gen_set_appendAll (h : Nat → Nat) (t o : PTable) : HashLink.HashSet.appendAll h t o = PTable.appendAll Kind.set h t o := by
+/-- The translated `HashSet::append(const HashSet& other)` (another object) is the model's `appendAll`, on every represented
+    table and for EVERY source table. -/
+theorem gen_set_appendAll {h : Nat → Nat} {pt : PTable} {t : Table} (hr : Rel pt t) (hi : t.Inv h) (o : PTable) :
+    HashLink.HashSet.appendAll h pt o = PTable.appendAll Kind.set h pt o := by
   unfold HashLink.HashSet.appendAll PTable.appendAll
-  exact gen_set_appendAll_loop h o _ _ _
+  exact gen_set_appendAll_loop h o _ pt t _ hr hi
 
 theorem gen_set_removeAll_loop (h : Nat → Nat) (o : PTable) (fuel : Nat) : ∀ (pt : PTable) (t : Table) (i : Nxt), Rel pt t → t.Inv h →
     HashLink.HashSet.removeAll_loop1 h fuel pt o i (.stl o.self) = PTable.removeLoop h o.self o.items fuel i pt := by
@@ -887,7 +941,9 @@ theorem gen_set_appendSelf_loop (h : Nat → Nat) (fuel : Nat) : ∀ (pt : PTabl
     | item a =>
       unfold HashLink.HashSet.appendSelf_loop1 PTable.appendSelfLoop
       simp only [reduceCtorEq, if_false]
-      rw [gen_set_insert h pt _ _ (pt.items a).value (by simp)]
+      have e := gen_set_insert_rel hr hi t.order.length (pt.items a).key (pt.items a).value
+      rw [nxtAt_length] at e
+      rw [e]
       obtain ⟨r, e1, _, hr', hself⟩ := hr.insert hi Kind.set t.order.length (pt.items a).key (pt.items a).value (Nat.le_refl _)
       rw [nxtAt_length] at e1
       rw [e1]
@@ -1021,17 +1077,21 @@ theorem gen_set_back (h : Nat → Nat) (t : PTable) :
   cases t.endPrev <;> simp [shown]
 
 /-- `append(key)` = `insert(_end, key)`, `prepend(key)` = `insert(_begin, key)` -/
-theorem gen_set_append (h : Nat → Nat) (t : PTable) (k v : Nat) :
-    HashLink.HashSet.append h t k = (t.insert Kind.set h (.stl t.self) k v).map (·.1) := by
+theorem gen_set_append {h : Nat → Nat} {pt : PTable} {t : Table} (hr : Rel pt t) (hi : t.Inv h) (k v : Nat) :
+    HashLink.HashSet.append h pt k = (pt.insert Kind.set h (.stl pt.self) k v).map (·.1) := by
   unfold HashLink.HashSet.append
-  rw [gen_set_insert h t _ k v (by simp)]
-  cases t.insert Kind.set h (.stl t.self) k v <;> rfl
+  have e := gen_set_insert_rel hr hi t.order.length k v
+  rw [nxtAt_length] at e
+  rw [e]
+  cases pt.insert Kind.set h (.stl pt.self) k v <;> rfl
 
-theorem gen_set_prepend (h : Nat → Nat) (t : PTable) (k v : Nat) (hp : t.begin ≠ .item (t.allocItem Kind.set).1) :
-    HashLink.HashSet.prepend h t k = (t.insert Kind.set h t.begin k v).map (·.1) := by
+theorem gen_set_prepend {h : Nat → Nat} {pt : PTable} {t : Table} (hr : Rel pt t) (hi : t.Inv h) (k v : Nat) :
+    HashLink.HashSet.prepend h pt k = (pt.insert Kind.set h pt.begin k v).map (·.1) := by
   unfold HashLink.HashSet.prepend
-  rw [gen_set_insert h t _ k v hp]
-  cases t.insert Kind.set h t.begin k v <;> rfl
+  have e := gen_set_insert_rel hr hi 0 k v
+  rw [← hr.begin_nxtAt] at e
+  rw [e]
+  cases pt.insert Kind.set h pt.begin k v <;> rfl
 
 theorem gen_pool_size (h : Nat → Nat) (t : PTable) : HashLink.PoolMap.size h t = some (t, t.size) := rfl
 theorem gen_pool_isEmpty (h : Nat → Nat) (t : PTable) : HashLink.PoolMap.isEmpty h t = some (t, t.isEmpty) := rfl
@@ -1129,18 +1189,18 @@ theorem gen_set_construct (h : Nat → Nat) (self : Bool) (c0 ipb dcap capacity 
   unfold HashLink.HashSet.construct PTable.construct PTable.fresh
   by_cases hc : capacity = 0 <;> simp [hc]
 
-theorem gen_set_copyConstruct_loop (h : Nat → Nat) (o : PTable) (fuel : Nat) : ∀ (t : PTable) (i : Nxt),
-    HashLink.HashSet.copyConstruct_loop1 h fuel t o i (.stl o.self) = PTable.appendLoop Kind.set h o.self o.items fuel i t := by
+theorem gen_set_copyConstruct_loop (h : Nat → Nat) (o : PTable) (fuel : Nat) : ∀ (pt : PTable) (t : Table) (i : Nxt), Rel pt t → t.Inv h →
+    HashLink.HashSet.copyConstruct_loop1 h fuel pt o i (.stl o.self) = PTable.appendLoop Kind.set h o.self o.items fuel i pt := by
   induction fuel with
   | zero =>
-    intro t i
+    intro pt t i hr hi
     cases i with
     | stl s =>
       unfold HashLink.HashSet.copyConstruct_loop1 PTable.appendLoop
       by_cases hs : s = o.self <;> simp [hs]
     | item a => simp [HashLink.HashSet.copyConstruct_loop1, PTable.appendLoop]
   | succ f ih =>
-    intro t i
+    intro pt t i hr hi
     cases i with
     | stl s =>
       unfold HashLink.HashSet.copyConstruct_loop1 PTable.appendLoop
@@ -1148,18 +1208,27 @@ theorem gen_set_copyConstruct_loop (h : Nat → Nat) (o : PTable) (fuel : Nat) :
     | item a =>
       unfold HashLink.HashSet.copyConstruct_loop1 PTable.appendLoop
       simp only [reduceCtorEq, if_false]
-      rw [gen_set_insert h t _ _ (o.items a).value (by simp)]
-      cases t.insert Kind.set h (.stl t.self) (o.items a).key (o.items a).value with
-      | none => rfl
-      | some r => simp only [Option.map_some]; exact ih _ _
+      have e := gen_set_insert_rel hr hi t.order.length (o.items a).key (o.items a).value
+      rw [nxtAt_length] at e
+      rw [e]
+      obtain ⟨r, e1, _, hr', _⟩ := hr.insert hi Kind.set t.order.length (o.items a).key (o.items a).value (Nat.le_refl _)
+      rw [nxtAt_length] at e1
+      rw [e1]
+      simp only [Option.map_some]
+      exact ih r.1 _ _ hr' (hi.insert Kind.set t.order.length (o.items a).key (o.items a).value (Nat.le_refl _)).1
 
 /-- The translated copy constructor (member initialisers, then `append(i->key, i->value)` along `other`'s list) is the
-    model's `copyOf`, for every source table whose class constant is the one of the current header. -/
-theorem gen_set_copyConstruct (h : Nat → Nat) (self : Bool) (c0 : Nat) (o : PTable) (hd : o.dcap = Hash.defaultCapacitySet) :
+    model's `copyOf`, for every source table whose class constants are those of the current header. -/
+theorem gen_set_copyConstruct (h : Nat → Nat) (self : Bool) (c0 : Nat) (o : PTable) (hd : o.dcap = Hash.defaultCapacitySet)
+    (hk : 0 < o.ipb) :
     HashLink.HashSet.copyConstruct h (PTable.fresh self c0 o.ipb o.dcap) o = PTable.copyOf Kind.set h self o := by
-  unfold HashLink.HashSet.copyConstruct PTable.copyOf PTable.appendAll
+  have e0 : HashLink.HashSet.copyConstruct h (PTable.fresh self c0 o.ipb o.dcap) o =
+      HashLink.HashSet.copyConstruct_loop1 h o.size (PTable.fresh self Hash.defaultCapacitySet o.ipb o.dcap) o o.begin (.stl o.self) := rfl
+  rw [e0]
+  unfold PTable.copyOf PTable.appendAll
   rw [hd]
-  exact gen_set_copyConstruct_loop h o _ _ _
+  exact gen_set_copyConstruct_loop h o _ _ _ _ (fresh_rel self _ _ _)
+    (fresh_inv h _ _ _ (by decide) hk (by decide))
 
 theorem gen_pool_constructDefault (h : Nat → Nat) (self : Bool) (c0 ipb dcap : Nat) :
     HashLink.PoolMap.constructDefault h (PTable.fresh self c0 ipb dcap) = some (PTable.fresh self Hash.defaultCapacityPool ipb dcap) := rfl
